@@ -5,6 +5,8 @@ package main
 import (
 	"fmt"
 	"strings"
+
+	"rare/pkg/expressions/funclib"
 )
 
 // Round 4c of C09: the WORLD-RELATIVE fragment (Lean: Rare/Spec/C09FragW.lean, theorem
@@ -17,6 +19,11 @@ import (
 //	                                       Model side: the SPEC's print compiled with the model registry of the world,
 //	                                       `fragOkW` checked, value compared with the tree semantics WITH BINDERS `evalW`
 //	                                       (a body's `{0}` / `{1}` are the element / accumulator of the enclosing helper).
+//	aerr  <opt> <template>                 EVERY error Compile records with the probe registry (`bad` / `nil` are builders
+//	                                       that fail), kind@index:context in order.  Model side: no compile – the declarative
+//	                                       list `allErrs` under the arity signature `testSig` (theorem all_errors_exact_arity).
+//	aerrs <opt> <template>                 the same with the REAL standard function table, templates over the 33 names whose
+//	                                       builders fail on the argument count only (`arityNames`); other names: `unmodelled`.
 //	wtreex <opt> <tokens> <elems> <keys>   the same for trees that break the side conditions (non-literal initial value,
 //	                                       named zones, non-ASCII layouts, wrong arities): compile + evaluate only.
 
@@ -289,6 +296,7 @@ func c09R4cGen(r *Rand, tier string) []string {
 			emit("wtree", t)
 		}
 	}
+	out = append(out, c09AerrGen(r, tier)...)
 	for i := 0; i < n; i++ {
 		g := &c09FragGen{r: r}
 		op := "wtree"
@@ -307,8 +315,86 @@ func c09R4cGen(r *Rand, tier string) []string {
 	return out
 }
 
+var c09ArityNames = []string{"coalesce", "and", "or", "eq", "neq", "switch", "not", "unless", "len", "isint", "expbucket", "isnum", "ceil", "floor",
+	"sqrt", "hf", "hi", "basename", "dirname", "extname", "@len", "like", "prefix", "suffix", "select", "@map", "@filter", "substr", "tab", "$", "@", "csv"}
+
+// a statement over `names` with a random number of arguments (so arities are wrong now and then), nested
+func c09ArityStmt(r *Rand, names []string, depth int) string {
+	var sb strings.Builder
+	sb.WriteString("{")
+	sb.WriteString(Pick(r, []string{"", "", "", " ", "\t"}))
+	sb.WriteString(Pick(r, names))
+	for i, n := 0, r.Intn(5); i < n; i++ {
+		sb.WriteString(Pick(r, []string{" ", " ", "  ", "\t", "\n"}))
+		switch k := r.Intn(10); {
+		case k < 3 && depth > 0:
+			sb.WriteString(c09ArityStmt(r, names, depth-1))
+		case k < 4:
+			sb.WriteString(Pick(r, []string{"{}", "{ }", "{0}", "{k}", "{nofn 1 2}", "\"{}\"", "\"a {nofn x} b\"", "{", "\"\""}))
+		case k < 5:
+			sb.WriteString("\"" + Pick(r, []string{"a b", "", "x", "1 2 3"}) + "\"")
+		default:
+			sb.WriteString(Pick(r, []string{"a", "1", "x", "-3", "é", "2.5", "k=v"}))
+		}
+	}
+	sb.WriteString(Pick(r, []string{"", "", " "}))
+	sb.WriteString("}")
+	return sb.String()
+}
+
+func c09AerrGen(r *Rand, tier string) []string {
+	var out []string
+	probe := append(append([]string{}, c09ProbeNames...), "bad", "nil", "bad", "nil", "nofn")
+	std := append(append([]string{}, c09ArityNames...), "nofn", "NOT", "sumi", "bucket", "format")
+	fixedP := []string{"ab{f {bad y {}} {nil 1}}", "{bad}", "{bad x}", "{nil x}{bad y}", "{f {nil {bad {}}}}", "{bad {nofn x}}", "{nofn {bad x}}", "{bad \"{nil x}\"}",
+		"{bad {nil 1} {", "{f x}{bad", "é{bad é {nil 😀}}", "\\{{bad x}", "{bad {}}}{nil 1}"}
+	fixedS := []string{"{not a b}{eq x}{switch {len a b} 1 2 3}{nofn 1 2}{", "{not}", "{not a}", "{len a b}", "{if a}", "{eq a}", "{eq a b c d}", "{switch a}",
+		"{switch a b}", "{unless a}", "{substr a 1}", "{substr a 1 2}", "{@map a}", "{@map a b c}", "{@filter a}", "{@for a b}", "{coalesce {not a b} {hi}}",
+		"{$ {@ {tab {csv {len a b}}}}}", "{like {prefix a} {suffix a b c}}", "ab{select a}cd{select a 1 2}", "{sumi a}", "{basename a b}{dirname}{extname a b c}",
+		"{isint a b}{isnum a b}{ceil a b}{floor a b}{sqrt a b}{hf a b}{hi a b}{expbucket a b}{@len a b}"}
+	for _, t := range fixedP {
+		out = append(out, "aerr 0 "+HexS(t), "aerr 1 "+HexS(t))
+	}
+	for _, t := range fixedS {
+		out = append(out, "aerrs 0 "+HexS(t), "aerrs 1 "+HexS(t))
+	}
+	n := 600
+	if tier == "thorough" {
+		n = 12000
+	}
+	for i := 0; i < n; i++ {
+		var sb strings.Builder
+		names, op := probe, "aerr"
+		if i%2 == 1 {
+			names, op = std, "aerrs"
+		}
+		for k := r.Range(1, 3); k > 0; k-- {
+			sb.WriteString(Pick(r, []string{"", "a", "é", "\\{", "}", " "}))
+			sb.WriteString(c09ArityStmt(r, names, 2))
+		}
+		if r.Chance(1, 8) {
+			sb.WriteString(Pick(r, []string{"{", "{bad x", "{not a"}))
+		}
+		out = append(out, fmt.Sprintf("%s %s %s", op, c09Opt(r), HexS(sb.String())))
+	}
+	return out
+}
+
 func c09R4cRun(f []string) (string, bool) {
 	switch f[0] {
+	case "aerr", "aerrs":
+		if len(f) != 3 {
+			return "bad-args", true
+		}
+		kb := c09Builder(f[1] == "1")
+		if f[0] == "aerrs" {
+			kb = funclib.NewKeyBuilderEx(f[1] == "1")
+		}
+		compiled, errs := kb.Compile(string(UnHex(f[2])))
+		if compiled == nil {
+			return "nil-compiled", true
+		}
+		return "ok " + errsStr(errs), true
 	case "wtree", "wtreex":
 		if len(f) != 5 {
 			return "bad-args", true
